@@ -38,10 +38,11 @@ func synthSigner() trust.Signer {
 // ---------------------------------------------------------------------------------------------
 
 type world struct {
-	topo  netsim.Topo
-	byIA  map[addr.IA]*netsim.ASSpec
-	downs []*seg.PathSegment // core -> leaf chains (every chain is an up segment of its last AS and a down segment to it)
-	cores []*seg.PathSegment
+	sharedASNumber bool // two ASes in different ISDs carry the same AS number
+	topo           netsim.Topo
+	byIA           map[addr.IA]*netsim.ASSpec
+	downs          []*seg.PathSegment // core -> leaf chains (every chain is an up segment of its last AS and a down segment to it)
+	cores          []*seg.PathSegment
 }
 
 func (w *world) link(a *netsim.ASSpec, ifc netsim.IfSpec) *netsim.ASSpec { return w.byIA[ifc.Remote] }
@@ -52,6 +53,37 @@ func genWorld(rt *rapid.T, perturb bool) *world { return genWorldAt(rt, perturb,
 // signedEntries: AS entries carry a signed body (needed to store the segments in a path database).
 func genWorldAt(rt *rapid.T, perturb bool, maxAge int, signedEntries bool) *world {
 	w := &world{topo: netsim.GenTopo(rt), byIA: map[addr.IA]*netsim.ASSpec{}}
+	// AS numbers are only unique within an ISD: sometimes give an AS of ISD 2 the number of an AS of ISD 1
+	if rapid.IntRange(0, 3).Draw(rt, "sharedASNumber") == 0 {
+		var in1, in2 []int
+		for i, a := range w.topo.ASes {
+			if a.IA.ISD() == 1 {
+				in1 = append(in1, i)
+			} else {
+				in2 = append(in2, i)
+			}
+		}
+		if len(in1) > 0 && len(in2) > 0 {
+			a := w.topo.ASes[in1[rapid.IntRange(0, len(in1)-1).Draw(rt, "sharedFrom")]].IA
+			bi := in2[rapid.IntRange(0, len(in2)-1).Draw(rt, "sharedTo")]
+			oldIA, newIA := w.topo.ASes[bi].IA, addr.MustIAFrom(2, a.AS())
+			taken := false
+			for _, x := range w.topo.ASes {
+				taken = taken || x.IA == newIA
+			}
+			if !taken {
+				w.topo.ASes[bi].IA = newIA
+				for i := range w.topo.ASes {
+					for j := range w.topo.ASes[i].Ifs {
+						if w.topo.ASes[i].Ifs[j].Remote == oldIA {
+							w.topo.ASes[i].Ifs[j].Remote = newIA
+						}
+					}
+				}
+				w.sharedASNumber = true
+			}
+		}
+	}
 	for i := range w.topo.ASes {
 		w.byIA[w.topo.ASes[i].IA] = &w.topo.ASes[i]
 	}
